@@ -226,7 +226,9 @@ func (c *Ctx) rulesC10() {
 							return ok && bi.Name() == "len" && sameValue(call.Call.Args[0], ia.X)
 						})
 					}
-					idxSide := func(x ssa.Value) bool { return sameValue(x, ia.Index) || derivesShallow(ia.Index, func(y ssa.Value) bool { return y == x }) }
+					idxSide := func(x ssa.Value) bool {
+						return sameValue(x, ia.Index) || derivesShallow(ia.Index, func(y ssa.Value) bool { return y == x })
+					}
 					switch {
 					case bo.Op == token.GEQ && idxSide(bo.X) && lenSide(bo.Y) && !pol:
 						guarded = true
